@@ -599,8 +599,8 @@ func genClone(p *pkgInfo) *leanFile {
 	for i, s := range routines {
 		f.pf("  %s%s  -- %d %s\n", leanChars(s), comma(i, len(routines)), i, s)
 	}
-	f.pf("]\n\n/-- Struct ids with an `expr()` marker method: the dynamic types an `Expr` can have. -/\ndef exprTypes : List Nat := %s\n\n", natList(exprs, sid))
-	f.pf("/-- Struct ids with a `source()` marker method. -/\ndef sourceTypes : List Nat := %s\n\n", natList(sources, sid))
+	f.pf("]\n\n/-- Struct ids with an `expr()` marker method: the dynamic types an `Expr` can have. -/\ndef exprTypes : List Nat := %s\n\n", cloneNatList(exprs, sid))
+	f.pf("/-- Struct ids with a `source()` marker method. -/\ndef sourceTypes : List Nat := %s\n\n", cloneNatList(sources, sid))
 	f.pf("/-- Routine that rebuilds a value of the interface, and the interface's implementers. -/\ndef ifaceRoutines : List (List Char × Nat × List Nat) := [(%s, %d, exprTypes), (%s, %d, sourceTypes)]\n\n",
 		leanChars("Expr"), rid["CloneExpr"], leanChars("Source"), rid["cloneSource"])
 	var leanKind func(k ckind) string
@@ -688,7 +688,7 @@ func indexOf(xs []string) map[string]int {
 	return m
 }
 
-func natList(xs []string, id map[string]int) string {
+func cloneNatList(xs []string, id map[string]int) string {
 	var parts []string
 	for _, x := range xs {
 		parts = append(parts, fmt.Sprint(id[x]))
